@@ -60,7 +60,11 @@ fn dot(t: &mut Toks, cx: &mut Ctx) -> String {
                     cx.check(x.to_bits() == seq.to_bits() || (*x == 0.0 && seq == 0.0), "not bit-identical to the sequential dot product on exactly-summable data");
                 } else {
                     let scale: f64 = a.vec.iter().zip(b.vec.iter()).map(|(p, q)| (p * q).abs()).sum();
-                    cx.check((x - seq).abs() <= (n as f64 + 1.0) * f64::EPSILON * scale, "differs from the sequential dot product by more than reassociation allows");
+                    // theorem C16F.dotThreaded_vs_dot (standard model, u = 2^-53): |threaded - sequential| <=
+                    // (g_(n+1) + g_(maxChunk + w + 1)) sum|a_i b_i|, maxChunk = n/w + n%w the longest chunk
+                    let w = wobs.max(1); let uu = f64::EPSILON / 2.0;
+                    let k = (n + 1) + (n / w + n % w + w + 1);
+                    cx.check((x - seq).abs() <= 1.01 * (k as f64) * uu * scale, "differs from the sequential dot product by more than the reassociation bound of theorem dotThreaded_vs_dot");
                 }
             }
             f64_hex(*x)
